@@ -25,8 +25,12 @@ func HarnessC03Exchange(a []int) {
 	sock := newVSock()
 	sock.failFrom = a[2]
 	conn := vTunnel(sock, tcp)
-	if a[3] == 1 {
+	switch a[3] {
+	case 1:
 		conn.config.ResendInterval, conn.config.ResponseTimeout = 3*time.Second, 7*time.Second
+	case 2:
+		// the library's default configuration: up to 20 transmissions before the timeout
+		conn.config.ResendInterval, conn.config.ResponseTimeout = DefaultTunnelConfig.ResendInterval, DefaultTunnelConfig.ResponseTimeout
 	}
 	resend, timeout := int64(conn.config.ResendInterval), int64(conn.config.ResponseTimeout)
 	s, c := nondetU8(), nondetU8()
